@@ -294,6 +294,30 @@ func c18Window(family int, emit func(c18Case)) {
 			emit(c18Case{filter: "stringformat", in: float64(a) / 4, param: "%.2f", want: fmt.Sprintf("%.2f", float64(a)/4)})
 		}
 		emit(c18Case{filter: "integer", in: "nonsense", want: "0"})
+		// numbers written as text are read as DECIMAL numbers, whatever zeros or signs they carry in front
+		for _, zs := range []struct {
+			s string
+			n int
+		}{{"010", 10}, {"012", 12}, {"007", 7}, {"08", 8}, {"0010", 10}, {"+5", 5}, {"-010", -10}, {"00", 0}, {"3.7", 3}, {"010.9", 10}} {
+			emit(c18Case{filter: "integer", in: zs.s, want: strconv.Itoa(zs.n)})
+			if zs.n >= 0 {
+				txt := "abcdefghijklmnopqrstuvwxyz"
+				if zs.n >= 3 && zs.n < len(txt) {
+					emit(c18Case{filter: "truncatechars", in: txt, param: zs.s, want: txt[:zs.n-3] + "..."})
+				}
+				emit(c18Case{filter: "ljust", in: "ab", param: zs.s, want: "ab" + spaces(maxInt(0, zs.n-2))})
+				emit(c18Case{filter: "rjust", in: "ab", param: zs.s, want: spaces(maxInt(0, zs.n-2)) + "ab"})
+				emit(c18Case{filter: "length_is", in: strings.Repeat("x", zs.n), param: zs.s, want: "True"})
+				if zs.n > 0 {
+					emit(c18Case{filter: "divisibleby", in: zs.n * 3, param: zs.s, want: "True"})
+					emit(c18Case{filter: "divisibleby", in: zs.n*3 + 1, param: zs.s, want: map[bool]string{true: "True", false: "False"}[zs.n == 1]})
+				}
+			}
+		}
+		emit(c18Case{filter: "slice", in: "abcdefghijklmnop", param: "01:012", want: "bcdefghijkl"})
+		emit(c18Case{filter: "slice", in: "abcdefghijklmnop", param: "010:", want: "klmnop"})
+		emit(c18Case{filter: "get_digit", in: 987654321, param: "02", want: "2"})
+		emit(c18Case{filter: "get_digit", in: 987654321, param: "010", want: "987654321"})
 		emit(c18Case{filter: "float", in: "nonsense", want: fmt.Sprintf("%f", 0.0)})
 		emit(c18Case{filter: "stringformat", in: "str", param: "<%s>", want: "<str>"})
 		// floatformat on dyadic rationals (exact in binary), ties skipped
